@@ -8,7 +8,8 @@ order supplied -- from the object in memory, after `save_as` -> `segread` (eager
 refuse (undescribed label, non-binary stacked integers, floats outside [0, 1] ...) must be refused.
 
 Tie T: T20 (frame-loop guard, carry arithmetic, flush, pad, admission of max_fractional_value in
-`Segmentation.__init__`), T8 (`_get_unsigned_dtype`: LABELMAP bit depth), T1, T4, T12 (read side).
+`Segmentation.__init__`), T21 (the cast / round / scale statements of the three cast-carrying helpers, pinned),
+T8 (`_get_unsigned_dtype`: LABELMAP bit depth), T1, T4, T12 (read side).
 Tie C: the model (Model/SegEncode.lean) is run on the same masks:
   L0  model read-back (`roundtrip`) vs the implementation's read-back, ok-vs-refused of the constructor;
   L1  NumberOfFrames, the multiset of (segment, plane, pixels) seen through pydicom's `pixel_array` of the
@@ -26,7 +27,7 @@ from fractions import Fraction
 import numpy as np
 
 PROP = 'C01'
-TARGETS = ['T20', 'T8', 'T1', 'T4', 'T12']
+TARGETS = ['T20', 'T21', 'T8', 'T1', 'T4', 'T12']
 LEAN_MODULES = ['HdVerif.Props.C01']
 MODEL_MODULES = ['HdVerif.Model.SegEncode']
 NAMESPACE = 'HdVerif.C01'
